@@ -240,7 +240,9 @@ def main(argv=None):
             tail = " no-failing-input-found"
         else:
             tail = ""
-            with open(replay_path + ".obligations.txt", "w") as f:
+            side = replay_path if os.path.dirname(replay_path) == os.path.join(ROOT, "replays") else os.path.join(
+                ROOT, "replays", f"{pid}-{os.path.basename(replay_path)}")  # never write next to a committed witness/probe
+            with open(side + ".obligations.txt", "w") as f:
                 f.write("\n".join(names) + "\n")
         violations = names
         lines.append(f"VIOLATION property={pid} replay={replay_path}{tail}")
